@@ -281,6 +281,26 @@ def run(case, ctx):
     check({(x, y, p, int(s)) for x, y, p, s in si.cores()} ==
           {(xy[0], xy[1], p, s) for xy in responding
            for p, s in enumerate(chips[xy]["states"])}, "cores-iterator", "")
+    # membership questions about chips, links, cores and core states
+    qrng = random.Random(len(responding) * 977 + ew)
+    for _ in range(60):
+        x, y = qrng.randrange(-1, ew + 1), qrng.randrange(-1, eh + 1)
+        d = chips.get((x, y)) if (x, y) in responding else None
+        l, p = qrng.randrange(6), qrng.randrange(-1, 20)
+        st = qrng.choice(list(consts.AppState))
+        ctx.hit("membership_question")
+        for q, want in (
+                ((x, y), d is not None),
+                ((x, y, Links(l)), d is not None and l in d["links"]),
+                ((x, y, p), d is not None and 0 <= p < d["ncores"]),
+                ((x, y, p, st), d is not None and 0 <= p < d["ncores"] and
+                 d["states"][p] == int(st))):
+            try:
+                got = q in si
+            except Exception as e:
+                got = "%s: %s" % (type(e).__name__, e)
+            check(got is want, "membership-answer",
+                  "%r in system_info -> %r, machine says %r" % (q, got, want))
     # ---------------------------------------------------- machine model
     machine = pr_utils.build_machine(si)
     ctx.hit("machine_model_checked")
